@@ -140,6 +140,14 @@ func (k *Keeper) EthereumTx(goCtx context.Context, msg *evmtypes.MsgEthereumTx) 
 	receipt.GasUsed = response.GasUsed
 	receipt.BlockNumber = big.NewInt(ctx.BlockHeight())
 	receipt.TransactionIndex = uint(txIndex)
+	{
+		// the log index is not part of the marshalled (consensus) receipt,
+		// logs are numbered consecutively across all the transactions of the block
+		firstLogIndex := uint(k.GetCumulativeLogCountTransient(ctx, true))
+		for i, log := range receipt.Logs {
+			log.Index = firstLogIndex + uint(i)
+		}
+	}
 
 	receiptSdkEvent, err := evmtypes.GetSdkEventForReceipt(
 		receipt, // receipt
